@@ -81,6 +81,9 @@ pub struct Node {
     pub calls: u64,
     /// Group-commit group of this node id as configured by the application on every node.
     pub group: u64,
+    /// How far below its durable applied index the application reports `Config.applied` at the
+    /// next restart (it then de-duplicates the entries handed out again).
+    pub under_report: u64,
 }
 
 impl Node {
@@ -148,6 +151,7 @@ pub enum Action {
     Crash(usize),
     CrashMidSend(usize),
     Restart(usize),
+    RestartUnder(usize, u64),
     Partition(u64),
     Heal,
     Checkpoint(usize),
@@ -262,6 +266,7 @@ impl Sim {
             snap_out: Vec::new(),
             calls: 0,
             group,
+            under_report: 0,
         };
         self.nodes.push(node);
         let v = self.nodes.len() - 1;
@@ -273,7 +278,11 @@ impl Sim {
         let (cfg, store) = {
             let n = &mut self.nodes[v];
             let mut cfg = n.cfg.clone();
-            cfg.applied = n.store.with(|s| s.dur.applied);
+            // an application may under-report (never over-report) what it has applied; it must not
+            // go below the compaction point
+            let (applied, floor) = n.store.with(|s| (s.dur.applied, s.dur.snap_index));
+            cfg.applied = applied.saturating_sub(n.under_report).max(floor.min(applied));
+            n.under_report = 0;
             (cfg, n.store.clone())
         };
         let logger = self.logger.clone();
@@ -562,6 +571,12 @@ impl Sim {
     /// Applies one committed entry to the application state machine of node v.
     fn app_apply(&mut self, v: usize, e: &Entry) {
         let id = self.nodes[v].id;
+        // de-duplication: after a restart that under-reported the applied index the library
+        // hands out entries the application has already applied
+        if e.index <= self.nodes[v].store.with(|s| s.vol.applied) {
+            self.mon.stats.inc("app.duplicate_handouts_skipped");
+            return;
+        }
         // conf change first (the returned ConfState is stored with the applied index)
         let mut new_cs = None;
         let mut removed_self = false;
@@ -1250,6 +1265,18 @@ impl Sim {
                 self.nodes[*v].crash_mid_send = true;
                 true
             }
+            Action::RestartUnder(v, k) => {
+                let (v, k) = (*v, *k);
+                if self.nodes[v].up() || self.nodes[v].stopped {
+                    return false;
+                }
+                self.nodes[v].under_report = k;
+                self.nodes[v].inc += 1;
+                self.log(format!("n{} RESTART (reporting applied - {})", self.nodes[v].id, k));
+                self.mon.stats.inc("restarts_under_reporting_applied");
+                self.start_node(v);
+                true
+            }
             Action::Restart(v) => {
                 let v = *v;
                 if self.nodes[v].up() || self.nodes[v].stopped {
@@ -1287,6 +1314,12 @@ impl Sim {
             Action::Compact(v, to) => {
                 let n = &self.nodes[*v];
                 if !n.idle() {
+                    return false;
+                }
+                // "It is the application's responsibility to not attempt to compact an index
+                // greater than RaftLog.applied" (which can lag the application's own applied
+                // index after a restart that under-reported it)
+                if *to > n.raw.as_ref().unwrap().raft.raft_log.applied {
                     return false;
                 }
                 let ok = n.store.compact(*to);
